@@ -643,7 +643,7 @@ Proof.
     + apply Hpair; [left; reflexivity|exact Hg].
     + apply IH. intros r0' r' Hin Hg'. apply Hpair; [right; exact Hin|exact Hg'].
   - assert (Hfull : sem_ops st (LReturn (ret_items items) false (opt_limit (q_limit q) (opt_skip (q_skip q) (where_plan (q_where q) (chain_plan (q_pat q)))))) = Ok t')
-      by (cbn [sem_ops]; rewrite Hcut; exact Hret).
+      by (cbn [sem_ops]; cbn [sem_ops] in Hcut; rewrite Hcut; cbn [rbind]; rewrite Hret; reflexivity).
     rewrite Hfull, Hout. unfold envs, project_envs. f_equal.
     destruct (q_limit q), (q_skip q); cbn [spec_limit spec_skip]; rewrite <- ?firstn_map', <- ?skipn_map'; reflexivity.
 Qed.
